@@ -26,14 +26,41 @@ fn must_honour(mode: &str, flag: usize) -> bool {
 pub struct Input {
     pub labels: Vec<String>,  // declaration order
     pub text: String,
-    pub tts: Vec<TT>,         // over declaration order
+    pub tts: Vec<TT>,         // over declaration order (empty if the oracle comes from formulas)
+    pub ring: Option<(usize, u64)>,
+}
+
+/// extra options of a run: import of a previously exported state (naive mode only) and --counter
+#[derive(Clone, Copy, Default)]
+pub struct Extra {
+    pub import: bool,
+    pub counter: u8, // 0 none, 1 nai, 2 mem
+}
+
+fn oracle_of(inp: &Input) -> crate::mid::Oracle {
+    match inp.ring {
+        Some((n, idx)) => crate::mid::Oracle::from_formulas(&crate::mid::ring(n, idx)),
+        None => crate::mid::Oracle::from_tts(&inp.tts),
+    }
 }
 
 /// one CLI run and its judgement
 pub fn cli_case(cli: &str, path: &str, inp: &Input, mode: &str, sort: usize, flagset: u32, heu: Option<&str>) -> Vec<(String, String)> {
+    cli_case_x(cli, path, inp, mode, sort, flagset, heu, Extra::default())
+}
+
+#[allow(clippy::too_many_arguments)]
+pub fn cli_case_x(cli: &str, path: &str, inp: &Input, mode: &str, sort: usize, flagset: u32, heu: Option<&str>, extra: Extra) -> Vec<(String, String)> {
     let mut out = vec![];
     let n = inp.labels.len();
     let mut args: Vec<String> = vec!["--lib".into(), mode.into(), "-q".into()];
+    if extra.import {
+        args.push("--import".into());
+    }
+    if extra.counter > 0 {
+        args.push("--counter".into());
+        args.push(["", "nai", "mem"][extra.counter as usize].into());
+    }
     if !SORTS[sort].is_empty() {
         args.push(SORTS[sort].into());
     }
@@ -53,7 +80,20 @@ pub fn cli_case(cli: &str, path: &str, inp: &Input, mode: &str, sort: usize, fla
         out.push((format!("{}:exit", tag), format!("exit status {:?} for a well-formed input: {}", o.code, o.stderr.lines().last().unwrap_or("").chars().take(200).collect::<String>())));
         return out;
     }
-    let lines = match parse_stdout(&o.stdout) {
+    // --counter prints one line of counts before the interpretations
+    let body: String = if extra.counter > 0 {
+        let mut it = o.stdout.lines();
+        match it.next() {
+            Some(l) if l.contains("ModelCounts") || l.trim().is_empty() => {}
+            other => {
+                out.push((format!("{}:counter-line", tag), format!("--counter: first line is {:?}", other)));
+            }
+        }
+        it.map(|l| format!("{}\n", l)).collect()
+    } else {
+        o.stdout.clone()
+    };
+    let lines = match parse_stdout(&body) {
         Ok(l) => l,
         Err(l) => {
             out.push((format!("{}:format", tag), format!("stdout line is not an interpretation: {:?}", l)));
@@ -87,10 +127,11 @@ pub fn cli_case(cli: &str, path: &str, inp: &Input, mode: &str, sort: usize, fla
             }
         }
     }
-    let g = grounded(&inp.tts);
-    let com: Vec<Interp> = complete(&inp.tts).into_iter().collect();
-    let stm: Vec<Interp> = stable(&inp.tts).into_iter().collect();
-    let two: Vec<Interp> = models2(&inp.tts).into_iter().collect();
+    let orc = oracle_of(inp);
+    let g = orc.grounded.clone();
+    let com: Vec<Interp> = orc.complete.iter().cloned().collect();
+    let stm: Vec<Interp> = orc.stable.iter().cloned().collect();
+    let two: Vec<Interp> = orc.two.iter().cloned().collect();
     let has = |i: usize| flagset >> i & 1 == 1;
     let mut rest: &[Interp] = &models;
     if has(0) {
@@ -186,7 +227,7 @@ pub fn fixed_inputs() -> Vec<Input> {
         for (i, c) in conds.iter().enumerate() {
             text += &format!("ac({},{}).\n", written[i], c.text(&written, ("", " ")));
         }
-        Input { labels, text, tts: conds.iter().map(|c| c.tt(3)).collect() }
+        Input { labels, text, tts: conds.iter().map(|c| c.tt(3)).collect(), ring: None }
     };
     let a = |i| Fm::Atom(i);
     let n = |f| Fm::not(f);
@@ -223,12 +264,23 @@ pub fn cli_slice(run: &Run, flagsets: &[u32], heus: &[Option<usize>]) {
         let mut k = run.seed % stride;
         while k < src.size() {
             let c = src.get(k);
-            inputs.push(Input { labels: c.labels, text: c.text, tts: c.tts });
+            inputs.push(Input { labels: c.labels, text: c.text, tts: c.tts, ring: None });
             k += stride;
         }
     }
+    // mid-size inputs (ring ADFs with 6 and 7 statements): their diagrams grow under restriction
+    for k in 0..16u64 {
+        let (n, idx) = if k % 2 == 0 { (6usize, (k * 7919 + run.seed * 31) % crate::mid::ring_size(6)) } else { (7usize, (k * 104729 + run.seed * 17) % crate::mid::ring_size(7)) };
+        let l = crate::mid::ring(n, idx);
+        inputs.push(Input { labels: l.labels.clone(), text: l.text(None, ("\n", "", "")), tts: vec![], ring: Some((n, idx)) });
+    }
     for (i, inp) in inputs.iter().enumerate() {
         std::fs::write(format!("{}/in_{}.adf", tmp.0, i), &inp.text).unwrap_or_else(|_| machinery_error("cannot write input file"));
+        // exported state for the import runs (naive mode, as parsed)
+        let o = run_cli(&cli, &["--lib".into(), "naive".into(), "-q".into(), "--export".into(), format!("{}/exp_{}.json", tmp.0, i), format!("{}/in_{}.adf", tmp.0, i)]);
+        if o.code != Some(0) {
+            run.violation("cli:export-exit", format!("--export exits with {:?} on {}", o.code, inp.text.replace('\n', "")), json!({"type": "cli", "text": inp.text, "labels": inp.labels, "tts": inp.tts, "mode": "naive", "sort": 0, "flags": 0}));
+        }
     }
     let mut jobs: Vec<Job> = vec![];
     for file in 0..inputs.len() {
@@ -236,9 +288,18 @@ pub fn cli_slice(run: &Run, flagsets: &[u32], heus: &[Option<usize>]) {
             for sort in 0..3 {
                 for f in flagsets {
                     for h in heus {
-                        jobs.push(Job { file, mode, sort, flags: *f, heu: *h });
+                        jobs.push(Job { file, mode, sort, flags: *f, heu: *h, extra: Extra::default() });
                     }
                 }
+            }
+        }
+        // import of the exported state, with and without --counter (naive mode), and --counter on parsed input
+        for f in flagsets {
+            for counter in 0..3u8 {
+                jobs.push(Job { file, mode: 0, sort: 0, flags: *f, heu: heus[0], extra: Extra { import: true, counter } });
+            }
+            for mode in [0usize, 2] {
+                jobs.push(Job { file, mode, sort: file % 3, flags: *f, heu: heus[0], extra: Extra { import: false, counter: 1 + (file % 2) as u8 } });
             }
         }
     }
@@ -253,13 +314,13 @@ pub fn cli_slice(run: &Run, flagsets: &[u32], heus: &[Option<usize>]) {
             let job = &jobs[j as usize];
             let inp = &inputs[job.file];
             *st += 1;
-            let path = format!("{}/in_{}.adf", tmp.0, job.file);
-            for (kind, msg) in cli_case(&cli, &path, inp, MODES[job.mode], job.sort, job.flags, job.heu.map(|h| HEUS[h])) {
+            let path = if job.extra.import { format!("{}/exp_{}.json", tmp.0, job.file) } else { format!("{}/in_{}.adf", tmp.0, job.file) };
+            for (kind, msg) in cli_case_x(&cli, &path, inp, MODES[job.mode], job.sort, job.flags, job.heu.map(|h| HEUS[h]), job.extra) {
                 let flags: Vec<&str> = (0..10).filter(|i| job.flags >> i & 1 == 1).map(|i| FLAGS[i]).collect();
                 run.violation(
-                    &format!("cli:{}", kind),
-                    format!("{} [--lib {} {} {} {}] on {}", msg, MODES[job.mode], SORTS[job.sort], flags.join(" "), job.heu.map(|h| format!("--heu {}", HEUS[h])).unwrap_or_default(), inp.text.replace('\n', "")),
-                    json!({"type": "cli", "text": inp.text, "labels": inp.labels, "tts": inp.tts, "mode": MODES[job.mode], "sort": job.sort, "flags": job.flags, "heu": job.heu.map(|h| HEUS[h])}),
+                    &format!("cli:{}{}", if job.extra.import { "import:" } else { "" }, kind),
+                    format!("{} [--lib {} {} {} {}{}{}] on {}", msg, MODES[job.mode], SORTS[job.sort], flags.join(" "), job.heu.map(|h| format!("--heu {}", HEUS[h])).unwrap_or_default(), if job.extra.import { " --import (of the exported state)" } else { "" }, ["", " --counter nai", " --counter mem"][job.extra.counter as usize], inp.text.replace('\n', "")),
+                    json!({"type": "cli", "text": inp.text, "labels": inp.labels, "tts": inp.tts, "mode": MODES[job.mode], "sort": job.sort, "flags": job.flags, "heu": job.heu.map(|h| HEUS[h]), "import": job.extra.import, "counter": job.extra.counter, "ring": inp.ring.map(|r| vec![r.0 as u64, r.1])}),
                 );
             }
         },
@@ -277,6 +338,7 @@ struct Job {
     sort: usize,
     flags: u32,
     heu: Option<usize>,
+    extra: Extra,
 }
 
 pub fn run_c15(run: &Run) {
@@ -291,13 +353,13 @@ pub fn run_c15(run: &Run) {
     let a2 = Source::Fam(fam_a(2));
     for k in 0..a2.size() {
         let c = a2.get(k);
-        inputs.push(Input { labels: names(2), text: c.text, tts: c.tts });
+        inputs.push(Input { labels: names(2), text: c.text, tts: c.tts, ring: None });
     }
     let f31 = Source::FamCompact(fam_f(3, 1));
     let f31_from = inputs.len();
     for k in 0..f31.size() {
         let c = f31.get(k);
-        inputs.push(Input { labels: names(3), text: c.text, tts: c.tts });
+        inputs.push(Input { labels: names(3), text: c.text, tts: c.tts, ring: None });
     }
     let fixed_from = inputs.len();
     inputs.extend(fixed_inputs());
@@ -310,7 +372,7 @@ pub fn run_c15(run: &Run) {
         for mode in 0..3 {
             for sort in 0..3 {
                 for f in 0..10 {
-                    jobs.push(Job { file, mode, sort, flags: 1 << f, heu: None });
+                    jobs.push(Job { file, mode, sort, flags: 1 << f, heu: None, extra: Extra::default() });
                 }
             }
         }
@@ -327,7 +389,7 @@ pub fn run_c15(run: &Run) {
             for (pi, p) in pairs.iter().enumerate() {
                 let class = if quick { 5 } else { 1 };
                 if pi % class == (k + run.seed as usize) % class {
-                    jobs.push(Job { file: f31_from + k, mode, sort: (k + pi) % 3, flags: *p, heu: None });
+                    jobs.push(Job { file: f31_from + k, mode, sort: (k + pi) % 3, flags: *p, heu: None, extra: Extra::default() });
                 }
             }
         }
@@ -340,13 +402,13 @@ pub fn run_c15(run: &Run) {
         }
         for mode in 0..3 {
             for flags in 0..1024u32 {
-                jobs.push(Job { file: fixed_from + k, mode, sort: (flags as usize + k) % 3, flags, heu: None });
+                jobs.push(Job { file: fixed_from + k, mode, sort: (flags as usize + k) % 3, flags, heu: None, extra: Extra::default() });
             }
         }
         // labels and order under every sorting with everything printed
         for mode in 0..3 {
             for sort in 0..3 {
-                jobs.push(Job { file: fixed_from + k, mode, sort, flags: 0b1000000111, heu: None });
+                jobs.push(Job { file: fixed_from + k, mode, sort, flags: 0b1000000111, heu: None, extra: Extra::default() });
             }
         }
     }
@@ -358,15 +420,15 @@ pub fn run_c15(run: &Run) {
                     if quick && (file + h) % 2 == 1 {
                         continue;
                     }
-                    jobs.push(Job { file, mode, sort: file % 3, flags, heu: Some(h) });
+                    jobs.push(Job { file, mode, sort: file % 3, flags, heu: Some(h), extra: Extra::default() });
                 }
             }
         }
     }
     for k in 0..nfixed {
         for h in 0..4 {
-            jobs.push(Job { file: fixed_from + k, mode: 2, sort: k % 3, flags: (1 << 8) | (1 << 9) | 1, heu: Some(h) });
-            jobs.push(Job { file: fixed_from + k, mode: 0, sort: k % 3, flags: (1 << 8) | 1, heu: Some(h) });
+            jobs.push(Job { file: fixed_from + k, mode: 2, sort: k % 3, flags: (1 << 8) | (1 << 9) | 1, heu: Some(h), extra: Extra::default() });
+            jobs.push(Job { file: fixed_from + k, mode: 0, sort: k % 3, flags: (1 << 8) | 1, heu: Some(h), extra: Extra::default() });
         }
     }
     let res = run.par_family(
@@ -427,5 +489,16 @@ pub fn replay(c: &Value) -> Vec<(String, String)> {
     let tts: Vec<TT> = c["tts"].as_array().map(|a| a.iter().map(|x| x.as_u64().unwrap_or(0) as TT).collect()).unwrap_or_default();
     let path = format!("{}/in.adf", tmp.0);
     std::fs::write(&path, &text).unwrap_or_else(|_| machinery_error("cannot write input file"));
-    cli_case(&cli, &path, &Input { labels, text, tts }, c["mode"].as_str().unwrap_or("hybrid"), c["sort"].as_u64().unwrap_or(0) as usize, c["flags"].as_u64().unwrap_or(0) as u32, c["heu"].as_str())
+    let ring = c.get("ring").and_then(|r| Some((r[0].as_u64()? as usize, r[1].as_u64()?)));
+    let extra = Extra { import: c["import"].as_bool().unwrap_or(false), counter: c["counter"].as_u64().unwrap_or(0) as u8 };
+    let mut run_path = path.clone();
+    if extra.import {
+        let exp = format!("{}/exp.json", tmp.0);
+        let o = run_cli(&cli, &["--lib".into(), "naive".into(), "-q".into(), "--export".into(), exp.clone(), path.clone()]);
+        if o.code != Some(0) {
+            return vec![("import:export-failed".into(), "cannot export the state to import".into())];
+        }
+        run_path = exp;
+    }
+    cli_case_x(&cli, &run_path, &Input { labels, text, tts, ring }, c["mode"].as_str().unwrap_or("hybrid"), c["sort"].as_u64().unwrap_or(0) as usize, c["flags"].as_u64().unwrap_or(0) as u32, c["heu"].as_str(), extra)
 }
